@@ -18,7 +18,7 @@ import time
 VERIF = os.path.dirname(os.path.dirname(os.path.abspath(__file__)))
 REPO = os.environ.get("DASHU_REPO", "/repo")
 DRIVER = os.path.join(VERIF, "driver", "target", "debug", "dashu-facts")
-CACHE = os.path.join(VERIF, ".cache")
+CACHE = os.environ.get("VERIF_CACHE") or os.path.join(VERIF, ".cache")     # scratch-copy runs keep their facts in their own temp dir
 
 PKGS = ["dashu-base", "dashu-int", "dashu-float", "dashu-ratio", "dashu-macros", "dashu"]
 LIBPKGS = ["dashu-base", "dashu-int", "dashu-float", "dashu-ratio"]
